@@ -126,3 +126,20 @@ Print Assumptions C12_src_pin_parblock_copy.
 Print Assumptions C12_src_pin_parfile_copy_worker.
 Print Assumptions C12_src_pin_parblock_queue_file_range.
 Print Assumptions C12_src_pin_feedback_new.
+
+(* ---- nothing is carried from one file of a run to the next: the inventory of process-wide state (statics,
+   thread-locals, umask calls) of the current source, regenerated by the translator on every run ---- *)
+From XcpProofs Require Import XState.
+From Coq Require Import String.
+Theorem C12_src_no_state_carried_between_files :
+  x_static_items = ["libxcp/src/backup.rs::BAK_REGEX"%string] /\ x_thread_locals = [] /\ x_umask_calls = 0%N.
+Proof. exact x_process_wide_state_ok. Qed.
+Print Assumptions C12_src_no_state_carried_between_files.
+
+(* ---- CopyHandle::copy_file, translated: ONE pass over the data — a clone attempt, else the sparse walk or the plain
+   loop, whose error is returned (`?`), never retried (a second pass would report the same bytes twice) ---- *)
+From XcpModel Require Import Ops.
+From XcpProofs Require Import XOps.
+Theorem C12_src_copy_file_single_pass : x_copy_file_steps = copy_file_steps.
+Proof. exact x_copy_file_steps_ok. Qed.
+Print Assumptions C12_src_copy_file_single_pass.
